@@ -55,3 +55,30 @@ pub fn run(kind: &str, cap: Option<Option<usize>>, text: &str, kinds: &Kinds, ve
         _ => panic!("bad kind"),
     }
 }
+
+/// run entry `kind` with unbounded memo capacity, then probe the storage for every (production name, offset, in-directive flag);
+/// entries `name:pos:dir:len|F`, sorted and comma-joined (same format as the model's `parsem`)
+pub fn memo_dump(kind: &str, text: &str, names: &str) -> String {
+    verif::set_memo_capacity(None);
+    let span = Span::new_extra(text, SpanInfo::default());
+    match kind {
+        "sv" => { let _ = sv_parser(span); } "svi" => { let _ = sv_parser_incomplete(span); }
+        "lib" => { let _ = lib_parser(span); } "libi" => { let _ = lib_parser_incomplete(span); }
+        "pp" => { let _ = nom::combinator::all_consuming(pp_parser)(span); }
+        _ => panic!("kind"),
+    }
+    let mut out: Vec<String> = vec![];
+    for n in names.split_whitespace() {
+        let n: &'static str = Box::leak(n.to_string().into_boxed_str());
+        for pos in 0..=text.len() {
+            for dir in [false, true] {
+                let ptr = unsafe { text.as_ptr().add(pos) };
+                if let Some(v) = verif::memo_probe(n, ptr, dir) {
+                    out.push(format!("{}:{}:{}:{}", n, pos, if dir { 1 } else { 0 }, match v { Some(l) => l.to_string(), None => "F".into() }));
+                }
+            }
+        }
+    }
+    out.sort();
+    out.join(",")
+}
